@@ -99,6 +99,16 @@ CHECKS.update({
         'np.log / Float.log are opaque to proof: the theorems are about Real.log and the numeric value is tolerance-compared (partial w.r.t. IEEE)',
         '4/C09',
     ),
+    'C10': (
+        'Theorems (GProofs/C10.lean): generated obligations on the move tables regenerated from path.py on every run (exactly the 6 face / all 26 '
+        'neighbours, closed under negation); abstract certificate theorems (a feasible potential is a lower bound of the cost of every walk, additive and '
+        'bottleneck); feasible_lower_bound: the executable edge-by-edge check Grid.feasible implies that bound for the concrete periodic grid of ANY size and '
+        'for sum / steps / bottleneck criteria; edge-sum = node-sum - half the end points; wrapped / fractional coordinates inside the grid. Tie: every returned '
+        'path is validated (Lean validPath), its exact cost compared with the certified optimum; percolation minimum over peaks; exp weights by independent float Bellman-Ford.',
+        'known finding D7 (minmax-energy returns the dijkstra path) classified by equality with the certified sum-optimum; D6 (wrapped_sites) and D15 (4 corner moves missing, '
+        'found by the generated obligation) repaired by fix commits; networkx is not trusted; np.exp weights by tolerance 1e-9',
+        '4/C10',
+    ),
     'C13': (
         'Theorems (GProofs/C13.lean) on the list-level model that follows the code path (selection through filter = through wrapped '
         'positions): the corrected trajectory keeps the original base positions and first frame; under SmallSteps and a non-empty '
